@@ -20,6 +20,24 @@ let () =
           output_string oc (p_result (Model.run p));
           output_char oc '\n');
       close_out oc
+  | [ _; "monitor"; progs; outs; out ] ->
+      (* run every extracted monitor on (program, implementation output) pairs *)
+      let oc = open_out out in
+      let ic2 = open_in outs in
+      with_lines progs (fun line ->
+          let oline = input_line ic2 in
+          let res =
+            try
+              let p = program (parse line) in
+              match r_output (parse oline) with
+              | None -> "panic"
+              | Some o -> Monitors_glue.run_all p o
+            with Bad m -> "unreadable " ^ m
+          in
+          output_string oc res;
+          output_char oc '\n');
+      close_in ic2;
+      close_out oc
   | [ _; "reprint"; inp; out ] ->
       (* parse outputs and print them back: validates the output reader *)
       let oc = open_out out in
